@@ -187,12 +187,39 @@ theorem writeSegs_fold (segs : List MediaSegment) (st st' : List ExtXKey × List
     | ok s1 =>
       rw [hx] at h
       simp only [writeSegStep] at hx
-      cases hk : foldRes writeKeyStep st s.keys with
+      have r1 : ∀ l ∈ (resetStep st s.keys).2, l ∈ st.2 ∨ l = Line.key none := by
+        intro l hl
+        unfold resetStep at hl
+        split at hl
+        · rcases List.mem_append.mp hl with hl | hl
+          · exact Or.inl hl
+          · simp only [List.mem_singleton] at hl; exact Or.inr hl
+        · exact Or.inl hl
+      have r2 : Announced (resetStep st s.keys) := by
+        unfold resetStep
+        split
+        · intro x hx; simp only [List.mem_singleton] at hx; exact Or.inl hx
+        · exact hinv
+      have r3 : ∀ l ∈ st.2, l ∈ (resetStep st s.keys).2 := by
+        intro l hl
+        unfold resetStep
+        split
+        · exact List.mem_append_left _ hl
+        · exact hl
+      cases hk : foldRes writeKeyStep (resetStep st s.keys) s.keys with
       | ok r =>
         rw [hk] at hx
         obtain ⟨avail, out⟩ := r
         simp only [Res.ok.injEq] at hx; subst hx
-        obtain ⟨a1, a2, a3, a4⟩ := writeKeys_fold s s.keys (fun k hk => hk) st (avail, out) hk hinv
+        obtain ⟨a1', a2, a3', a4⟩ := writeKeys_fold s s.keys (fun k hk => hk) (resetStep st s.keys) (avail, out) hk r2
+        have a1 : ∀ l ∈ out, l ∈ st.2 ∨ FromSeg s l := by
+          intro l hl
+          rcases a1' l hl with hl | hl
+          · rcases r1 l hl with hl | hl
+            · exact Or.inl hl
+            · exact Or.inr (Or.inr (Or.inl hl))
+          · exact Or.inr hl
+        have a3 : ∀ l ∈ st.2, l ∈ out := fun l hl => a3' l (r3 l hl)
         have hinv1 : Announced (avail, out ++ s.writeLines) := by
           intro x hx
           rcases a2 x hx with e | e
